@@ -164,6 +164,26 @@ pub fn exec(op: &str, a: &[&str]) -> Option<String> {
         "c18.decnum" => done(e(decode_num(&unhexd(a[0]))).map(|v| format!("ok:{}", v))),
         "c18.decelem" => done(e(decode_number_combined(&unhexd(a[0]))).map(|v| format!("ok:{}", v))),
         "c18.decstack" => done((|| { let mut v = vec![]; for i in parse_stack(a[0]).unwrap_or_default() { v.push(e(decode_num(&i))?); } Ok(format!("ok:{}", fmt_list(&v))) })()),
+        // c18.stackseq <items> <ops>: a SEQUENCE of operations on one Stack object; observations (decode_element,
+        // decode_stack, item access, size) must not change the stack — the reference keeps a plain Vec and pure decoders.
+        // ops: d<i> decode_element(i) | D decode_stack | g<i> item i | s size | P<hex> push | O pop
+        "c18.stackseq" => done((|| {
+            let mut st: Vec<Vec<u8>> = parse_stack(a[0]).unwrap_or_default();
+            let mut res: Vec<String> = vec![];
+            for o in a[1].split(',') {
+                let (k, arg) = o.split_at(1);
+                match k {
+                    "d" => { let i: usize = arg.parse().map_err(|_| ())?; let it = st.get(i).ok_or(())?; res.push(e(decode_number_combined(it))?.to_string()); }
+                    "D" => { let mut v = vec![]; for it in st.iter() { v.push(e(decode_num(it))?.to_string()); } res.push(format!("[{}]", v.join(";"))); }
+                    "g" => { let i: usize = arg.parse().map_err(|_| ())?; res.push(hexd(st.get(i).ok_or(())?)); }
+                    "s" => res.push(st.len().to_string()),
+                    "P" => st.push(unhexd(arg)),
+                    "O" => { res.push(hexd(&st.pop().ok_or(())?)); }
+                    _ => return Err(()),
+                }
+            }
+            Ok(format!("ok:{}|{}", res.join(","), show_stack(&st)))
+        })()),
         "c18.pushint" | "c18.utilenc" => format!("ok:{}", hexd(&encode_bigint(big(a[0])))),
         "c18.utildec" => { let mut b = unhexd(a[0]); format!("ok:{}", decode_bigint(&mut b)) }
         "c18.appint" => done((|| {
@@ -399,6 +419,17 @@ pub fn gen(tier: &str, rng: &mut Rng, out: &mut Vec<String>) {
     for _ in 0..(if thorough { 3000 } else { 120 }) { items.push(operand(rng)); }
     for it in &items { for op in ["decnum", "decelem", "utildec"] { out.push(format!("c18.{} {}", op, hexd(it))); } }
     for _ in 0..(if thorough { 500 } else { 40 }) { let n = rng.range(0, 5); let l: Vec<String> = (0..n).map(|_| hexd(&if rng.chance(3, 4) { small_num(rng) } else { operand(rng) })).collect(); out.push(format!("c18.decstack {}", if l.is_empty() { "=".to_string() } else { l.join(",") })); }
+    // ---- sequences of operations on one Stack object (an observation must not change what a later one sees)
+    for _ in 0..(if thorough { 4000 } else { 400 }) {
+        let n = rng.range(1, 4) as usize;
+        let its: Vec<Vec<u8>> = (0..n).map(|_| match rng.below(6) { 0 => vec![0x80], 1 => vec![0x85], 2 => vec![1, 0, 0, 0, 0, 0x80], 3 => enc_num(-(rng.range(1, 70000) as i128)), 4 => small_num(rng), _ => operand(rng) }).collect();
+        let mut ops: Vec<String> = vec![];
+        for _ in 0..rng.range(2, 6) { let i = rng.below(n as u64 + 1);
+            ops.push(match rng.below(8) { 0 | 1 | 2 => format!("d{}", i), 3 => "D".into(), 4 | 5 => format!("g{}", i), 6 => "s".into(), _ => if rng.chance(1, 2) { format!("P{}", hexd(&small_num(rng))) } else { "O".into() } }); }
+        // the seeded shape: decode a negative element, then look at it again
+        if rng.chance(1, 3) { ops.insert(0, "d0".into()); ops.push("d0".into()); ops.push("g0".into()); }
+        out.push(format!("c18.stackseq {} {}", its.iter().map(|i| hexd(i)).collect::<Vec<_>>().join(","), ops.join(",")));
+    }
     let mut ints: Vec<String> = INT_POOL.iter().map(|s| s.to_string()).collect();
     ints.push(format!("1{}", "0".repeat(610))); ints.push(format!("-1{}", "0".repeat(610))); ints.push(format!("1{}", "0".repeat(640))); ints.push(format!("3{}", "7".repeat(613)));
     for _ in 0..(if thorough { 2000 } else { 60 }) { let bits = rng.range(1, 300) as u32; let v = BigInt::from_bytes_le(if rng.chance(1, 2) { Sign::Plus } else { Sign::Minus }, &rng.bytes((bits as usize + 7) / 8)); ints.push(v.to_string()); }
